@@ -1,0 +1,130 @@
+//go:build verif
+
+package querylog
+
+import (
+	"context"
+	"log/slog"
+	"time"
+
+	"github.com/AdguardTeam/golibs/errors"
+)
+
+// This file is only compiled with the "verif" build tag.  It adds accessors
+// used by the external deterministic-simulation harness (engine E2 qlogsim,
+// properties C07 and C20) and changes nothing in the shipped build.
+
+// VerifInitWeb registers the HTTP handlers of ql without starting the
+// immortal periodicRotate loop (which [queryLog.Start] would spawn).
+func VerifInitWeb(ql QueryLog) { ql.(*queryLog).initWeb() }
+
+// VerifCheckAndRotate runs one iteration of the body of
+// [queryLog.periodicRotate].
+func VerifCheckAndRotate(ctx context.Context, ql QueryLog) { ql.(*queryLog).checkAndRotate(ctx) }
+
+// VerifFlush runs the memory-to-file flush that Add's goroutine and Shutdown
+// run.
+func VerifFlush(ctx context.Context, ql QueryLog) (err error) {
+	return ql.(*queryLog).flushLogBuffer(ctx)
+}
+
+// VerifMemLen returns the number of entries in the memory buffer.
+func VerifMemLen(ql QueryLog) (n int) {
+	l := ql.(*queryLog)
+	l.bufferLock.RLock()
+	defer l.bufferLock.RUnlock()
+
+	return int(l.buffer.Len())
+}
+
+// VerifFlushPending returns the flushPending flag.
+func VerifFlushPending(ql QueryLog) (ok bool) {
+	l := ql.(*queryLog)
+	l.bufferLock.RLock()
+	defer l.bufferLock.RUnlock()
+
+	return l.flushPending
+}
+
+// Sizes of the reverse reader, exported for reach probes only.
+const (
+	VerifMaxEntrySize = maxEntrySize
+	VerifBufferSize   = bufferSize
+)
+
+// VerifSeekErrClass names the class of an error returned by a timestamp seek.
+func VerifSeekErrClass(err error) (class string) {
+	switch {
+	case err == nil:
+		return "found"
+	case errors.Is(err, errTSNotFound):
+		return "not-found"
+	case errors.Is(err, errTSTooEarly):
+		return "too-early"
+	case errors.Is(err, errTSTooLate):
+		return "too-late"
+	default:
+		return "other"
+	}
+}
+
+// VerifReader wraps the private multi-file reverse reader.
+type VerifReader struct{ r *qLogReader }
+
+// VerifNewReader opens the files (oldest first; missing files are skipped, as
+// in the search path).
+func VerifNewReader(ctx context.Context, logger *slog.Logger, files []string) (v *VerifReader, err error) {
+	r, err := newQLogReader(ctx, logger, files)
+	if err != nil {
+		return nil, err
+	}
+
+	return &VerifReader{r: r}, nil
+}
+
+// SeekTS calls qLogReader.seekTS.
+func (v *VerifReader) SeekTS(ctx context.Context, ts int64) (err error) { return v.r.seekTS(ctx, ts) }
+
+// SeekRecord calls qLogReader.seekRecord (the older_than cursor positioning).
+func (v *VerifReader) SeekRecord(ctx context.Context, olderThan time.Time) (err error) {
+	return v.r.seekRecord(ctx, olderThan)
+}
+
+// SeekStart calls qLogReader.SeekStart.
+func (v *VerifReader) SeekStart() (err error) { return v.r.SeekStart() }
+
+// ReadNext calls qLogReader.ReadNext.
+func (v *VerifReader) ReadNext() (line string, err error) { return v.r.ReadNext() }
+
+// Close calls qLogReader.Close.
+func (v *VerifReader) Close() (err error) { return v.r.Close() }
+
+// NumFiles returns the number of files the reader has opened.
+func (v *VerifReader) NumFiles() (n int) { return len(v.r.qFiles) }
+
+// VerifFile wraps the private single-file reverse reader.
+type VerifFile struct{ q *qLogFile }
+
+// VerifNewFile opens one query-log file.
+func VerifNewFile(path string) (v *VerifFile, err error) {
+	q, err := newQLogFile(path)
+	if err != nil {
+		return nil, err
+	}
+
+	return &VerifFile{q: q}, nil
+}
+
+// SeekTS calls qLogFile.seekTS.
+func (v *VerifFile) SeekTS(ctx context.Context, logger *slog.Logger, ts int64) (pos int64, depth int, err error) {
+	return v.q.seekTS(ctx, logger, ts)
+}
+
+// SeekStart calls qLogFile.SeekStart.
+func (v *VerifFile) SeekStart() (pos int64, err error) { return v.q.SeekStart() }
+
+// ReadNext calls qLogFile.ReadNext.
+func (v *VerifFile) ReadNext() (line string, err error) { return v.q.ReadNext() }
+
+// Close calls qLogFile.Close.
+func (v *VerifFile) Close() (err error) { return v.q.Close() }
